@@ -79,16 +79,21 @@ func start(relic, dir string, n int, metrics bool) (*proc, error) {
 		}
 		close(p.exited)
 	}()
-	// ready when the port answers
-	deadline := time.Now().Add(15 * time.Second)
+	// ready when /health is answered: the listeners exist (and accept connections) before serveCmd starts the goroutine
+	// that installs the signal handlers, so an open port alone says nothing; a served request means Serve is running,
+	// which serveCmd reaches after `go watchSignals`; a short pause lets that goroutine get to signal.Notify
+	deadline := time.Now().Add(20 * time.Second)
+	hc := &http.Client{Timeout: 2 * time.Second}
 	for time.Now().Before(deadline) {
 		select {
 		case <-p.exited:
 			return nil, fmt.Errorf("relic serve exited at once (%d): %s", p.code, errb.String())
 		default:
 		}
-		if c, err := net.DialTimeout("tcp", p.addr, 200*time.Millisecond); err == nil {
-			c.Close()
+		if resp, err := hc.Get("http://" + p.addr + "/health"); err == nil {
+			resp.Body.Close()
+			hc.CloseIdleConnections()
+			time.Sleep(400 * time.Millisecond)
 			return p, nil
 		}
 		time.Sleep(30 * time.Millisecond)
